@@ -181,6 +181,34 @@ func streamRace(thorough bool) {
 	if thorough {
 		rounds = 3000
 	}
+	// cold start: the very first scoring / serialising / parsing calls of the process happen concurrently (lazily
+	// initialised package state shows only here); the sequential reference is computed afterwards
+	for _, v := range versions {
+		objs := make([][]byte, 64)
+		for i := range objs {
+			objs[i] = v.randomWF()
+		}
+		got := make([]string, len(objs))
+		var wg sync.WaitGroup
+		start := make(chan struct{})
+		for i := range objs {
+			wg.Add(1)
+			go func(i int) {
+				defer wg.Done()
+				<-start
+				got[i] = v.observe(objs[i]) + " " + v.fullOutcome(v.vector(objs[i]))
+			}(i)
+		}
+		close(start)
+		wg.Wait()
+		res := "same"
+		for i := range objs {
+			if want := v.observe(objs[i]) + " " + v.fullOutcome(v.vector(objs[i])); want != got[i] {
+				res = "diff cold-start:" + hexB(objs[i])
+			}
+		}
+		emit("C "+v.name+" cold-concurrent "+strconv.Itoa(len(objs)), res)
+	}
 	for _, v := range versions {
 		// inputs and their sequential results
 		var inputs []string
